@@ -51,10 +51,14 @@ namespace ut
 {
 inline std::atomic<uint32_t> g_last_fmt_tid{0};
 inline std::atomic<uint64_t> g_fmt_calls{0};
+inline std::atomic<uint32_t> g_watched_tid{0};
+inline std::atomic<uint64_t> g_fmt_calls_on_watched_tid{0};
 inline void note_fmt_thread()
 {
-  g_last_fmt_tid.store(static_cast<uint32_t>(syscall(SYS_gettid)), std::memory_order_relaxed);
+  uint32_t const t = static_cast<uint32_t>(syscall(SYS_gettid));
+  g_last_fmt_tid.store(t, std::memory_order_relaxed);
   g_fmt_calls.fetch_add(1, std::memory_order_relaxed);
+  if (t == g_watched_tid.load(std::memory_order_relaxed)) g_fmt_calls_on_watched_tid.fetch_add(1, std::memory_order_relaxed);
 }
 struct DefTrivial // trivially copyable, deferred format
 {
@@ -1066,6 +1070,38 @@ int main(int argc, char** argv)
   }
   if (g_mode == Mode::Alloc && !g_failed && CODEC_PART == 0) macro_families(r);
   if (g_mode == Mode::Alloc) quill::Backend::stop();
+  if (g_mode == Mode::Alloc && !g_failed && CODEC_PART == 0)
+  {
+    // statements still queued when the backend is stopped (it sleeps between polls and is not notified): their deferred
+    // formatters run during the final drain - on the backend thread, never on the thread that calls stop()
+    for (int round = 0; round < 3 && !g_failed; ++round)
+    {
+      quill::BackendOptions b2 = bo;
+      b2.sleep_duration = std::chrono::seconds{2};
+      quill::Backend::start(b2);
+      std::this_thread::sleep_for(std::chrono::milliseconds(150)); // let it reach its idle sleep
+      uint32_t const caller = static_cast<uint32_t>(syscall(SYS_gettid));
+      ut::g_watched_tid.store(caller);
+      uint64_t const before = ut::g_fmt_calls.load(), on_caller_before = ut::g_fmt_calls_on_watched_tid.load();
+      for (int i = 0; i < 8; ++i)
+      {
+        ut::DefTrivial d{};
+        d.a = i;
+        d.b = 0.5 * i;
+        LOG_INFO(g_logger, "at stop {} {}", d, ut::DefSized<264>{});
+      }
+      quill::Backend::stop();
+      uint64_t const total = ut::g_fmt_calls.load() - before, on_caller = ut::g_fmt_calls_on_watched_tid.load() - on_caller_before;
+      ut::g_watched_tid.store(0);
+      if (on_caller)
+      {
+        violation("C11", "deferred-type-formatted-on-the-thread-that-called-stop", J{}.unum("formatter_calls_on_the_calling_thread", on_caller).unum("formatter_calls", total).num("round", round));
+        g_failed = true;
+      }
+      g_stats.add("stop_with_backlog_rounds");
+      g_stats.add("formatter_calls_during_final_drain", static_cast<long long>(total));
+    }
+  }
   g_stats.add("shapes_run", static_cast<long long>(catalogue().size()));
   g_stats.add(mode + "_cases", static_cast<long long>(g_cases));
   g_stats.add("interposed", VF_CAN_INTERPOSE);
